@@ -69,18 +69,30 @@ def long_walks(prop, tier, seed):
             uninit(prop, tier, "uninit_long_walks_" + tier[0], ns, nb, 4, simulate=(n, d, seed + 4))]
 
 
+def c02_reads(tier):
+    """reads through handles of every kind, including callbacks and comparison / hash impls that unwind"""
+    t = tier[0]
+    n = 3 if tier == "quick" else 4
+    return [thin("C02", tier, "thin_frames_" + t, THIN_OPS, n, 2, 1, 1),
+            sized("C02", tier, "sized_frames_" + t, BASE + CONV_CORE + ["Borrow", "Enter", "Exit"], n, 2, 1, hows=("new", "newB")),
+            stage(CT.ctor_stage, "C02", tier, "observers_" + t, ["observe"], True,
+                  only_cats=["count", "poison", "drops", "frees", "baddrop", "crash"])]
+
+
 def c02(tier, seed):
     ops = ["clone", "read", "drop"]
     if tier == "quick":
         return [mm("C02", tier, "mm_clone_drop_q", [("c02_2x3", ops, 2, 3, 2, False), ("c02_3x2", ops, 3, 2, 1, False),
                                                      ("c02_2x4", ops + ["count"], 2, 4, 1, False),
                                                      ("c02_2x3u", ops + ["try_unwrap"], 2, 3, 2, False)]),
-                tr("C02", tier, "threads_q", seed), inj("C02", tier)]
+                tr("C02", tier, "threads_q", seed), inj("C02", tier),
+                # a read through a handle that unwinds (panicking callback / comparison / hash impl) must leave every count alone
+                ] + c02_reads(tier)
     return [mm("C02", tier, "mm_clone_drop_t", [("c02_2x3", ops, 2, 3, 2, False), ("c02_3x3", ops, 3, 3, 1, False),
                                                  ("c02_4x2", ops, 4, 2, 1, False), ("c02_2x5", ops, 2, 5, 2, False),
                                                  ("c02_3x2h", ops + ["count"], 3, 2, 1, True),
                                                  ("c02_3x2u", ops + ["try_unwrap"], 3, 2, 1, False)]),
-            tr("C02", tier, "threads_t", seed), inj("C02", tier)]
+            tr("C02", tier, "threads_t", seed), inj("C02", tier)] + c02_reads(tier)
 
 
 def lay(prop, tier, name):
@@ -253,11 +265,11 @@ def c03(tier, seed):
     if tier == "quick":
         return [sized("C03", tier, "sized_uniq_q", ops, 3, 2, 1),
                 mm("C03", tier, "mm_uniq_q", [("c03_2x3", mops, 2, 3, 2, False), ("c03_3x2", mops, 3, 2, 1, False)]),
-                tr("C03", tier, "threads_q", seed), inj("C03", tier)] + swaps("C03", tier, seed, hows=("init", "thin"))
+                tr("C03", tier, "threads_q", seed), inj("C03", tier), thin("C03", tier, "thin_uniq_" + tier[0], THIN_OPS, 3 if tier == "quick" else 4, 2, 1, 1)] + swaps("C03", tier, seed, hows=("init", "thin"))
     return [sized("C03", tier, "sized_uniq_t", ops + ["Unsize", "IntoRawDyn", "FromRawDyn"], 4, 2, 1),
             mm("C03", tier, "mm_uniq_t", [("c03_2x4", mops, 2, 4, 2, False), ("c03_3x3", mops, 3, 3, 1, False),
                                           ("c03_3x2h", mops, 3, 2, 1, True)]),
-            tr("C03", tier, "threads_t", seed), inj("C03", tier)] + swaps("C03", tier, seed, hows=("init", "thin"))
+            tr("C03", tier, "threads_t", seed), inj("C03", tier), thin("C03", tier, "thin_uniq_" + tier[0], THIN_OPS, 3 if tier == "quick" else 4, 2, 1, 1)] + swaps("C03", tier, seed, hows=("init", "thin"))
 
 
 def c04(tier, seed):
@@ -360,7 +372,7 @@ PROPS = {
     "C14": {"level": "model_checking", "stages": c14, "assumptions": ["the reference answers (what the values answer) are Compare.tla's ValEq / ValCmp: header, then slice lexicographically, then recorded length; the real value types' own impls are checked against that table, every handle kind against the values", "exhaustive over the small domain only (3 letters, slices up to the bound, recorded length equal or +1)"], "replay": any_replay},
     "C16": {"level": "model_checking", "stages": c16, "assumptions": ["the 4-bit count word is a scale model of the 64-bit one: the guard compares with half the range, which is parametric in the width", "start counts are preset through the tracer's knowledge of the count's address; each clone runs in its own child process", "concurrent increments racing past the limit are not modelled (the guard's slack of isize::MAX increments is the crate's documented assumption)"], "replay": any_replay},
     "C17": {"level": "model_checking", "stages": c17, "assumptions": ["SerCalls(value, k) is uninterpreted: the trace supplies the call log of the value and of the handle and Serde.tla requires them equal", "payload family: u64, String, tuple, Vec, Option, hand-written nested structs; recording serializer and token deserializer of the harness", "serde feature only (default configuration)"], "replay": any_replay},
-    "C02": {"level": "model_checking", "stages": c02, "assumptions": MM_ASSUME, "replay": any_replay},
+    "C02": {"level": "model_checking", "stages": c02, "assumptions": MM_ASSUME + GRAPH_ASSUME, "replay": any_replay},
     "C01": {"level": "model_checking", "stages": c01, "assumptions": GRAPH_ASSUME + MM_ASSUME + LAYOUT_ASSUME + SWAP_ASSUME, "replay": any_replay},
     "C03": {"level": "model_checking", "stages": c03, "assumptions": GRAPH_ASSUME + MM_ASSUME + SWAP_ASSUME, "replay": any_replay},
     "C04": {"level": "model_checking", "stages": c04, "assumptions": GRAPH_ASSUME + SWAP_ASSUME, "replay": any_replay},
